@@ -125,7 +125,7 @@ struct Scn {
                 fn();
                 return "v";
             } else {
-                auto &r = fn();
+                auto &&r = fn();   // binds a reference (the shared value) or a value (a spelling that returns by value)
                 return P<T>::show(r);
             }
         } catch (const await_canceled_exception &) {
